@@ -519,7 +519,16 @@ def struct_accessor_pair(repo: Repo, rep, P: str, rule: str, ci: ClassInfo, prop
             a = resolve_names(args[ai], single_defs(g))          # locals that name the packed expressions
             ast.copy_location(a, args[ai])
             ai += 1
-            if isinstance(a, ast.IfExp) or (isinstance(a, ast.Subscript) and isinstance(a.value, (ast.Tuple, ast.List))):
+            const_marker = False
+            if isinstance(a, ast.Name):
+                # a local set to one of several constants on different branches (`state = _UNSET` / `state = _MAPPED`)
+                vals_ = [x.value for x in ast.walk(g) if isinstance(x, ast.Assign) and any(isinstance(t_, ast.Name) and t_.id == a.id for t_ in x.targets)]
+                try:
+                    folded = [repo.fold(v_, ci=ci) for v_ in vals_]
+                    const_marker = len(folded) > 1 and all(isinstance(v_, int) and 0 <= v_ < (1 << (8 * size)) for v_ in folded)
+                except NotConst:
+                    const_marker = False
+            if const_marker or isinstance(a, ast.IfExp) or (isinstance(a, ast.Subscript) and isinstance(a.value, (ast.Tuple, ast.List))):
                 # marker bytes that are a function of other fields: opaque
                 bv = BV([bits.T(frozenset(["marker"]))] * 8 + [0] * (bits.W - 8))
             else:
